@@ -845,8 +845,12 @@ pub fn c04(ctx: &mut Ctx) -> String {
             if i < 1 && which == 0 {
                 sample_case(ctx, &t, fam, &cfg);
             }
+            // (the sampling discipline - one draw per infoset and pass, with the presented weights -
+            // is what makes the sampled regrets unbiased: checked on every short run)
             let case = if which == 0 && i % 4 <= 1 && t.size() <= 120 {
-                solve_case(&t, &cfg, &["sampled_rate", "corr"])
+                solve_case(&t, &cfg, &["sampled_rate", "corr", "draws"])
+            } else if which == 0 {
+                solve_case(&t, &cfg, &["sampled_rate", "draws"])
             } else {
                 solve_case(&t, &cfg, &["sampled_rate"])
             };
@@ -1225,7 +1229,32 @@ pub fn c09(ctx: &mut Ctx) -> String {
         let cfg = Cfg { method: method.into(), params, iters: budget, thr, threads, target: None, seed };
         case_solve(ctx, &solve_case(&t, &cfg, &["prefix", "wellformed", "corr"]));
     }
-    "all three methods (sampled ones under the keyed draw hook) x games x presets and custom tuples x budgets {0, 1} x threads {1, 2, 3, 4} and budgets 2..10 (quick) / 2..16 (thorough) x thresholds {0, -1, NaN, +inf, a bound value b occurring along the run, its two float neighbours, 1.5 b, 0.7 b} x threads {1, 2, 4}: the run with the threshold against the run with budget t* and no threshold (bit-exact for one thread); single-threaded cases also against the model".to_string()
+    // the largest budget there is ("no limit": what the documentation recommends with a threshold,
+    // and what the CLI passes for -t 0), with a threshold the run reaches
+    for i in 0..(if ctx.thorough { 120u64 } else { 18 }) {
+        if ctx.out_of_time() {
+            break;
+        }
+        let (t, fam) = small_game(ctx, i, 120);
+        ctx.stat(&format!("family_{}", fam));
+        let method = ["F", "S", "E"][(i % 3) as usize];
+        let params = Params::presets()[((i / 3) % 5) as usize].1;
+        let seed = ctx.rng.next() >> 12;
+        let threads = if i % 6 >= 3 { 2 } else { 1 };
+        let g = build(&t).unwrap();
+        let k = ctx.rng.range(1, 9);
+        let c0 = Cfg { method: method.into(), params, iters: k, thr: 0.0, threads: 1, target: None, seed };
+        let b = match run_lib(&g, &c0) {
+            Outcome::Ok(r) if r.total.is_finite() && r.total > 0.0 => r.total,
+            _ => continue,
+        };
+        let budget = if (i / 6) % 2 == 0 { u64::MAX } else { u64::MAX - 1 };
+        ctx.stat(if budget == u64::MAX { "budget_u64_max" } else { "budget_u64_max_minus_one" });
+        let cfg = Cfg { method: method.into(), params, iters: budget, thr: 1.5 * b, threads, target: None, seed };
+        let asserts: &[&str] = if threads == 1 { &["prefix", "corr"] } else { &["prefix"] };
+        case_solve(ctx, &solve_case(&t, &cfg, asserts));
+    }
+    "all three methods (sampled ones under the keyed draw hook) x games x presets and custom tuples x budgets {0, 1} x threads {1, 2, 3, 4}, budgets {u64::MAX, u64::MAX - 1} with a reachable threshold, and budgets 2..10 (quick) / 2..16 (thorough) x thresholds {0, -1, NaN, +inf, a bound value b occurring along the run, its two float neighbours, 1.5 b, 0.7 b} x threads {1, 2, 4}: the run with the threshold against the run with budget t* and no threshold (bit-exact for one thread); single-threaded cases also against the model".to_string()
 }
 
 // ---------------------------------------------------------------------------------------------
@@ -1419,6 +1448,31 @@ pub fn case_meta(ctx: &mut Ctx, case: &Value) {
         "shift" => t.map_payoffs(&|p| p + c),
         _ => transform(&t, what, &mut rng, c),
     };
+    // infoset names are per player: half of the inserted single-action nodes take the name of an
+    // infoset of the *other* player (one the acting player does not use herself)
+    let own_labels = infosets_of(&t);
+    let t2 = if what == "degenerate" {
+        fn relabel(t: &T, own: &[BTreeMap<u32, Vec<u32>>; 2], flip: u64) -> T {
+            match t {
+                T::Term(p) => T::Term(*p),
+                T::Chance(i, o) => T::Chance(*i, o.iter().map(|(w, x)| (*w, relabel(x, own, flip))).collect()),
+                T::Player(p, i, a) => {
+                    let me = if *p { 0 } else { 1 };
+                    let mut label = *i;
+                    if *i >= 9000 && (flip >> (*i - 9000)) & 1 == 1 {
+                        if let Some(l) = own[1 - me].iter().filter(|(l, acts)| acts.len() >= 2 && !own[me].contains_key(*l)).map(|(l, _)| *l).nth((*i - 9000) as usize % 2) {
+                            label = l;
+                        }
+                    }
+                    T::Player(*p, label, a.iter().map(|(x, y)| (*x, relabel(y, own, flip))).collect())
+                }
+            }
+        }
+        relabel(&t2, &own_labels, rng.next())
+    } else {
+        t2
+    };
+    let inserted = |p: usize, l: u32| what == "degenerate" && !own_labels[p].contains_key(&l);
     let (g1, g2) = match (build(&t), build(&t2)) {
         (Ok(a), Ok(b)) => (a, b),
         (a, b) => {
@@ -1439,7 +1493,7 @@ pub fn case_meta(ctx: &mut Ctx, case: &Value) {
                 n.clone()
             }
             "swap" => [n[1].clone(), n[0].clone()],
-            "degenerate" => [drop_labels(&n[0], &|l| l >= 9000), drop_labels(&n[1], &|l| l >= 9000)],
+            "degenerate" => [drop_labels(&n[0], &|l| inserted(0, l)), drop_labels(&n[1], &|l| inserted(1, l))],
             _ => n.clone(),
         }
     };
@@ -1452,7 +1506,7 @@ pub fn case_meta(ctx: &mut Ctx, case: &Value) {
                 let mut out = n.clone();
                 for p in 0..2 {
                     for (l, a) in &infos[p] {
-                        if *l >= 9000 {
+                        if inserted(p, *l) {
                             out[p].push((*l, vec![(a[0], 1.0)]));
                         }
                     }
